@@ -108,6 +108,11 @@ Theorem C17_pinned_shrink_refuted :
 Proof. exact pinned_shrink_refuted. Qed.
 Print Assumptions C17_pinned_shrink_refuted.
 
+Theorem C17_pinned_distance_refuted :
+  exists a b max, l0_distance a b max < max /\ distance_code false a b max = max.
+Proof. exact pinned_distance_refuted. Qed.
+Print Assumptions C17_pinned_distance_refuted.
+
 (* non-vacuity: the domain holds a boundary-crossing, aliasing script and two storage modes of one value *)
 Example C17_domain_inhabited : run_ok [] ex_ops.
 Proof. exact ex_run_ok. Qed.
